@@ -41,7 +41,9 @@ func c08Ops(rng *Rng, n int, allowText bool) []Action {
 				out = append(out, Action{Op: "redirect", N: rng.Pick2(301, 302), S: "/to"})
 			}
 		case 11:
-			if allowText && rng.Chance(1, 2) {
+			if rng.Chance(1, 3) {
+				out = append(out, Action{Op: "stream", N: rng.Pick2(200, 206), S: rng.Pick(c08Payloads)})
+			} else if allowText && rng.Chance(1, 2) {
 				out = append(out, Action{Op: "text", N: rng.Pick2(200, 202), S: rng.Pick(c08Payloads)})
 			} else {
 				out = append(out, Action{Op: "obs"})
@@ -283,6 +285,14 @@ func modelCommit(prop string, rec *ReqRec, rq *Req, judgePanicked, opaque bool) 
 				if rr.Body.Len() > 0 {
 					write(rr.Body.String())
 				}
+			case "stream":
+				p := strings.SplitN(arg, ":", 2)
+				code, _ := strconv.Atoi(p[0])
+				setStatus(code)
+				hadCT = true
+				if len(p[1]) > 0 {
+					write(p[1]) // one chunk: a write error ends the copy (recorded with AddError, no panic)
+				}
 			case "text":
 				p := strings.SplitN(arg, ":", 2)
 				code, _ := strconv.Atoi(p[0])
@@ -395,7 +405,7 @@ func callsString(cs []WCall) string {
 
 func init() {
 	rule := "a request is non-trivial when its handlers performed at least two wrapper-level operations (status/write/flush/helpers)"
-	register(&Profile{Prop: "C08", Name: "single", Quick: 20000, Thorough: 1500000, Gen: genC08(false, false), Check: checkC08, Rule: rule})
-	register(&Profile{Prop: "C08", Name: "single-faults", Quick: 20000, Thorough: 1500000, Gen: genC08(true, false), Check: checkC08, Rule: rule, Faulty: true})
-	register(&Profile{Prop: "C08", Name: "concurrent-faults", Quick: 6000, Thorough: 400000, Gen: genC08(true, true), Check: checkC08, Rule: rule, Faulty: true})
+	register(&Profile{Prop: "C08", Name: "single", Quick: 60000, Thorough: 1500000, Gen: genC08(false, false), Check: checkC08, Rule: rule})
+	register(&Profile{Prop: "C08", Name: "single-faults", Quick: 60000, Thorough: 1500000, Gen: genC08(true, false), Check: checkC08, Rule: rule, Faulty: true})
+	register(&Profile{Prop: "C08", Name: "concurrent-faults", Quick: 18000, Thorough: 400000, Gen: genC08(true, true), Check: checkC08, Rule: rule, Faulty: true})
 }
